@@ -135,7 +135,13 @@ def gen_real_svg(rng, flags=None):
     pro = ''
     if rng.chance(0.3):
         pro += '<?xml version="1.0" encoding="UTF-8"?>' + rng.choice(['', '\n'])
-    if rng.chance(0.15):
+    ents = []
+    if rng.chance(0.12):
+        # an internal subset declaring general entities (Illustrator style); used below in attributes and text of non-root elements
+        ents = rng.sample(['brand', 'ns_x', 'c1'], rng.range(1, 2))
+        vals = {'brand': '#336699', 'ns_x': 'http://ns.example/x', 'c1': 'a b'}
+        pro += '<!DOCTYPE svg [' + rng.choice(['', '\n']) + ''.join('<!ENTITY %s "%s">%s' % (e, vals[e], rng.choice(['', '\n'])) for e in ents) + ']>' + rng.choice(['', '\n'])
+    elif rng.chance(0.15):
         pro += rng.choice(['<!DOCTYPE svg>', '<!DOCTYPE svg PUBLIC "-//W3C//DTD SVG 1.1//EN" "http://www.w3.org/Graphics/SVG/1.1/DTD/svg11.dtd">', '<!DOCTYPE   svg  >']) + '\n'
     if rng.chance(0.2):
         pro += gen_misc(rng).replace('<![CDATA[', '<!--').replace(']]>', '-->') if False else ('<!-- c -->' + rng.choice(['', '\n']))
@@ -154,4 +160,9 @@ def gen_real_svg(rng, flags=None):
             body.append(gen_text(rng)[0])
         else:
             body.append(gen_misc(rng))
+    for e in ents:
+        k = rng.below(3)
+        if k == 0: body.insert(rng.below(len(body) + 1), '<rect fill="&%s;" width="3"/>' % e)
+        elif k == 1: body.insert(rng.below(len(body) + 1), '<g data-e="x &%s; y"><path d="M0 0" stroke="&%s;"/></g>' % (e, e))
+        else: body.insert(rng.below(len(body) + 1), '<desc>a &%s; b</desc>' % e)
     return pro + '<svg' + ''.join(parts) + '>' + ''.join(body) + '</svg>' + rng.choice(['', '\n'])
